@@ -59,6 +59,11 @@ Definition gpath (g : dg) (v : nat) (l : list nat) : Prop := chain (edge g) v l.
 Definition height (g : dg) (v k : nat) : Prop :=
   (exists l, gpath g v l /\ S (length l) = k) /\ (forall l, gpath g v l -> S (length l) <= k).
 
+(* number of nodes on a longest path that starts in one of the nodes vs *)
+Definition lheight (g : dg) (vs : list nat) (k : nat) : Prop :=
+  (exists v l, In v vs /\ gpath g v l /\ S (length l) = k) /\
+  (forall v l, In v vs -> gpath g v l -> S (length l) <= k).
+
 (* number of nodes on a longest path of a non-empty graph *)
 Definition gheight (g : dg) (k : nat) : Prop :=
   (exists v l, v < length g /\ gpath g v l /\ S (length l) = k) /\
